@@ -579,9 +579,8 @@ def select__array_fold_left_right_functions(self: XPathFunction, context: ta.Con
     if self.context is not None:
         context = self.context
 
-    func = self[2][1] if self[2].symbol == ':' else self[2]
-    if not isinstance(func, XPathFunction):
-        func = self.get_argument(context, index=2, cls=XPathFunction, required=True)
+    # the argument is evaluated: a function call expression is not a function item
+    func = self.get_argument(context, index=2, cls=XPathFunction, required=True)
     if func.arity != 2:
         raise self.error('XPTY0004', "function arity must be 2")
 
